@@ -11,10 +11,11 @@ CLAIM = {
           'read exactly the indirect word and the selected channels of the selected frames, in order, and read+skip stays '
           'inside the record), rle_lookup + index_data_record (frame number -> record position and offset, every record '
           'appended with its whole number of frames), index_lists_all (every dispatchable record listed at its position '
-          'with type, kind and table name, in file order), setFrameSet_history_independent (+ the F20 exception), '
-          'extrapolate_rule_first/later, and kernel-evaluated witnesses (setFrameSet_values_witness, implied_x_witness_step1, '
+          'with type, kind and table name, in file order), setFrameSet_history_independent + setFrameSet_after_any_load, '
+          'extrapolate_rule_first/later, setFrameSet_values_allchannels_single_partial (direct X, all channels, one data '
+          'record: every slice gives exactly the rows of the selected frames), and kernel-evaluated witnesses (setFrameSet_values_witness, implied_x_witness_step1, '
           'implied_x_f7_witness = the negation of the implied-X clause on the current code). The end-to-end statements '
-          '(setFrameSet_values, implied X for step 1) are not proved in general; they are covered by the correspondence of '
+          '(setFrameSet_values for several records / channel subsets, implied X for step 1) are not proved in general; they are covered by the correspondence of '
           'the model with the code on generated LIS files (index entries, loaded words, implied X vector, file operation '
           'trace, genEvents tuples) and by the property oracle evaluated on the implementation alone against the '
           'generator\'s ground truth. Proof + correspondence is the right level: the property quantifies over unbounded '
@@ -44,12 +45,17 @@ TRUSTED = ['modelled, not verified: File/PhysRec logical-record reading (positio
 KIND = {'IndexTable': 'TB', 'IndexNone': 'NO', 'IndexUnknownInternalFormat': 'UF', 'IndexFileHead': 'FH',
         'IndexFileTail': 'FT', 'IndexTapeHead': 'TH', 'IndexTapeTail': 'TT', 'IndexReelHead': 'RH',
         'IndexReelTail': 'RT', 'IndexLogPass': 'LP'}
+F_STEPPED = 'F7-lis-implied-x-stepped-slice'
+F_EMPTY = 'C06-indirect-x-empty-channel-list'
+ANCHOR_FILES = ['src/TotalDepth/LIS/core/FileIndexer.py', 'src/TotalDepth/LIS/core/LogPass.py',
+                'src/TotalDepth/LIS/core/FrameSet.py', 'src/TotalDepth/LIS/core/Type01Plan.py',
+                'src/TotalDepth/LIS/core/Rle.py', 'src/TotalDepth/common/Rle.py', 'src/TotalDepth/LIS/core/LogiRec.py']
 ERRMAP = {'IndexError': 'indexError', 'ExceptionLogPass': 'logPass', 'ZeroDivisionError': 'zeroDiv',
           'ExceptionFrameSet': 'frameSet', 'ExceptionFrameSetPlanOverrun': 'overrun', 'ExceptionFrameSetPlan': 'fracFrames',
           'ExceptionFrameSetPlanNegLen': 'negLen', 'ExceptionFileRead': 'fileRead', 'ExceptionLogPassCtor': 'logPassCtor',
           'ExceptionLr': 'lr', 'ExceptionDatumSpecBlock': 'dsb', 'ExceptionCbEngValInit': 'cbInit',
           'AssertionError': 'assertion', 'TypeError': 'typeError', 'ExceptionRepCodeUnknown': 'repCode',
-          'ExceptionRepCodeRead': 'fileRead', 'AttributeError': 'attributeError'}
+          'ExceptionRepCodeRead': 'fileRead'}
 
 
 def _mods():
@@ -296,14 +302,8 @@ def oracle_load(ctx, RepCode, bf, pi, sl, chans, res, case, prior_bad_ctor=False
         return None
     frames = selected_frames(sl, total)
     if res['err']:
-        # F20: an earlier load with a channel index out of range left the LogPass without its _frameSet attribute
-        fid = 'F20' if (res['err'] == 'err attributeError' and prior_bad_ctor) else None
-        if res['err'] == 'err zeroDiv' and 0 in lp.fpr:
-            # F22: a zero-frame data record; every frame at or after it cannot be located
-            z = lp.rec_first[lp.fpr.index(0)]
-            if any(fr >= z for fr in frames):
-                fid = 'F22'
-        return ctx.fail(case, 'setFrameSet raised %s for an in-range selection' % res['err'], finding=fid)
+        return ctx.fail(case, 'setFrameSet raised %s for an in-range selection%s' % (
+            res['err'], ' (after an earlier failed load on the same LogPass)' if prior_bad_ctor else ''))
     if chans is None:
         cols = list(range(nch))
     else:
@@ -341,11 +341,11 @@ def oracle_load(ctx, RepCode, bf, pi, sl, chans, res, case, prior_bad_ctor=False
         dev = [i for i, (a, b) in enumerate(zip(xs, want_x)) if a != b]
         detail = 'X of loaded frame %d (frame %d): got %s, true %s' % (dev[0], frames[dev[0]], xs[dev[0]], want_x[dev[0]])
         if lp.indirect and chans == []:
-            finding = 'F21'       # no channel selected: no event is generated, the implied X vector stays uninitialised
+            finding = F_EMPTY     # no channel selected: no event is generated, the implied X vector stays uninitialised
         elif lp.indirect:
             rule, cls = f7_rule(lp, frames, (sl[2] or 1) if sl else 1)
             if all(cls[i] and xs[i] == float(rule[i]) for i in dev) and (sl is not None and (sl[2] or 1) > 1):
-                finding = 'F7'
+                finding = F_STEPPED
         ctx.fail(case, detail, finding=finding)
         if finding is None:
             return
@@ -417,7 +417,7 @@ def oracle_index(ctx, bf, idx, case):
                 return ctx.fail(case, 'log pass at %d: last X %s, true %s' % (e.tell, L.xAxisLastVal, lp.x[-1]))
         # data record positions known to the log pass
         seeks = []
-        nfr = lp.total if 0 not in lp.fpr else lp.rec_first[lp.fpr.index(0)]      # F22: frames behind a zero-frame record
+        nfr = lp.total
         for fr in range(nfr):
             try:
                 seeks.append(L.rle.tellLrForFrame(fr))
@@ -455,7 +455,7 @@ def random_loads(rng, bf, nmax=5):
             else:
                 k = rng.randint(1, nch)
                 ch = [rng.randrange(nch) for _ in range(k)] if rng.random() < 0.3 else sorted(rng.sample(range(nch), k))
-                if rng.random() < 0.012:
+                if rng.random() < 0.03:
                     ch = ch + [nch + rng.randint(0, 2)]
                 if rng.random() < 0.04:
                     ch = []
@@ -634,7 +634,7 @@ def run(ctx):
     cases = [(F7_WITNESS, [[0, [0, 16, 2], None], [0, None, None], [0, [0, 16, 2], [1, 3]], [0, [1, 15, 3], None]])]
     for k in range(ctx.n(1500, 16000)):
         small = rng.random() < 0.5
-        fdesc = lislog.random_file_desc(rng, max_passes=2, small=small, jitter=rng.random() < 0.2, zero_rec=0.03,
+        fdesc = lislog.random_file_desc(rng, max_passes=2, small=small, jitter=rng.random() < 0.2, zero_rec=0.05,
                                         max_rec=rng.choice([1, 3, 6]), max_fpr=rng.choice([1, 3, 7, 12]))
         bf = lislog.build_file(fdesc)
         cases.append((fdesc, random_loads(rng, bf)))
